@@ -66,6 +66,8 @@ def from_tree(t: dict) -> Any:
 
 def err_kind(e: BaseException) -> str:
     msg = str(e)
+    if "No module named" in msg:
+        return "mapping_import_failed"  # get_mapping() of the emitted discriminator metadata could not import a variant
     if "Unknown discriminator value" in msg:
         return "unknown_discriminator"
     if "Failed to deserialize as" in msg and "(discriminator" in msg:
